@@ -136,7 +136,8 @@ func writerBody(pr wParams, r *wRun) func() {
 // writerCheck evaluates the oracle named in pr on one execution.
 func writerCheck(pr wParams, r *wRun, ref *[]byte) func(o *vsched.Outcome) (string, string, string) {
 	return func(o *vsched.Outcome) (sig, msg, label string) {
-		if s, m := vsched.StdVerdict(o); s != "" {
+		if s, m := vsched.StdVerdict(o); s != "" && !(o.Leaked && !closed(pr.Script)) {
+			// a script that never closes the writer legitimately leaves its goroutine behind
 			return s, m, s
 		}
 		data := r.dev.Data
